@@ -1753,23 +1753,22 @@ func (p *Pkg) isPkgLevelOrConst(e ast.Expr) bool {
 	return false
 }
 
-// isLeafHelper: the function calls no other float-valued package function, so
-// it can only be a table of weights (a switch or lookup on its code
-// arguments). A helper that combines other helpers is a piece of a formula
-// and is inlined instead.
+// isLeafHelper: the function performs no floating-point arithmetic itself: it
+// only selects a constant (switch, table lookup, another selecting helper), so
+// it is a table of weights over its code arguments. A helper that combines
+// values arithmetically is a piece of a formula and is inlined instead.
 func (p *Pkg) isLeafHelper(fd *ast.FuncDecl) bool {
 	leaf := true
 	ast.Inspect(fd.Body, func(n ast.Node) bool {
-		c, ok := n.(*ast.CallExpr)
+		be, ok := n.(*ast.BinaryExpr)
 		if !ok {
 			return true
 		}
-		fn := calleeOf(p.Info, c)
-		if fn == nil || fn.Pkg() != p.P.Types {
-			return true
-		}
-		if sig, ok := fn.Type().(*types.Signature); ok && sig.Results().Len() == 1 && isFloat(sig.Results().At(0).Type()) {
-			leaf = false
+		switch be.Op {
+		case token.ADD, token.SUB, token.MUL, token.QUO:
+			if tv, ok := p.Info.Types[be]; ok && isFloat(tv.Type) && tv.Value == nil {
+				leaf = false
+			}
 		}
 		return true
 	})
